@@ -1,6 +1,7 @@
 import Driver.L0Packet
 import CoreBGP.Model.Server
 import CoreBGP.Spec.Server
+import CoreBGP.Spec.Lin
 /-!
 # L0/L3 driver: configuration validation, registry operation sequences, admission, back-off
 -/
@@ -117,6 +118,39 @@ def hReg : Handler
     pure ⟨m, o, s!"n{min ops.length 12}"⟩
   | _, _ => none
 
+/-- one recorded call `ev(tid,inv,ret,op,result)`; results are compared as canonical strings -/
+def parseLinEv : Term → Option (Spec.Lin.Ev Op String)
+  | .app "ev" [tid, inv, ret, op, res] => do
+    pure { tid := ← Term.asNat tid, inv := ← Term.asNat inv, ret := ← Term.asNat ret, op := ← parseOp op, res := res.toStr }
+  | _ => none
+
+/-- `reglin serving [[op,…],…]` => history `[ev(tid,inv,ret,op,result),…]` recorded from concurrent
+goroutines on one real `Server`. Model side: the history must be linearizable with respect to the
+sequential model (every operation holds `Server.mu`: `C20Lin.atomic_linearizable`); oracle: it must be
+linearizable with respect to the abstract map. `Spec.Lin.lin` decides both (`C20Lin.lin_iff`). Also
+checked: the history holds exactly the calls that were issued, per goroutine in program order. -/
+def hRegLin : Handler
+  | [_, ths], impl => do
+    let ths ← (Term.asList ths).bind (·.mapM Term.asList)
+    let evs ← (Term.asList impl).bind (·.mapM parseLinEv)
+    -- well-formedness of the recording itself: per goroutine the issued operations in order, stamps increasing
+    let perThread (t : Nat) := evs.filter (·.tid = t)
+    let issuedOK := (List.range ths.length).all fun t =>
+      ((perThread t).map fun e => e.inv) == ((perThread t).map fun e => e.inv).mergeSort (· ≤ ·) &&
+      (impl.asList.getD []).filterMap (fun e => match e with
+        | .app "ev" [tid, _, _, op, _] => if tid == Term.nat t then some op else none | _ => none) == ths[t]!
+      && (perThread t).all fun e => e.inv < e.ret
+    let total := (ths.map (·.length)).sum
+    let mstep (s : Server) (op : Op) : Server × String := let (s', r) := modelStep s op; (s', r.toStr)
+    let astep (a : Abs) (op : Op) : Abs × String := let (a', r) := absStep a op; (a', r.toStr)
+    let okM := issuedOK && evs.length == total && Spec.Lin.lin mstep evs.length ({} : Server) evs
+    let okA := issuedOK && evs.length == total && Spec.Lin.lin astep evs.length ({} : Abs) evs
+    let m := if okM then impl else Term.atom "not-linearizable-wrt-model"
+    let o := if okA then Oracle.ok
+      else .fail "C20 concurrent registry operations must be linearizable: some total order consistent with real-time precedence in which they behave as operations on a map keyed by remote address"
+    pure ⟨m, o, s!"lin/t{ths.length}/n{min total 12}"⟩
+  | _, _ => none
+
 /-- `backoff [gapSeconds,…]` => `[delaySeconds,…]` (first gap ignored) -/
 def hBackoff : Handler
   | [gs], impl => do
@@ -152,6 +186,6 @@ def hHandleErr : Handler
 /-- `admit [cfg…] src dst` => `peer(K)` | `closed`: the admission predicate (model/spec only; the
 implementation side is exercised by the live engine) -/
 def serverHandlers : List (String × Handler) :=
-  [("cfg", hCfg), ("reg", hReg), ("backoff", hBackoff), ("herr", hHandleErr)]
+  [("cfg", hCfg), ("reg", hReg), ("reglin", hRegLin), ("backoff", hBackoff), ("herr", hHandleErr)]
 
 end Driver
